@@ -5,7 +5,7 @@ ID = "C20"
 GEN = "c20"
 HARNESS_TEST = "TestC20"
 COQ_MODEL = ["C20/Check.v", "Gen/C20Facts.v"]
-COQ_PROOF_DEPS = ["C20/Proofs.v", "C20/ProofsDg.v"]
+COQ_PROOF_DEPS = ["C20/Proofs.v", "C20/ProofsDg.v", "C20/ProofsGen.v"]
 COQ_OBLIG = ["C20/Property.v", "Gen/C20Oblig.v"]
 CASES_HEADER = ("Require Import Nib.C20.SMapDef Nib.C20.Model Nib.C20.Spec Nib.C20.Check Nib.Gen.C20Facts.\n"
                 "Open Scope nat_scope.")
@@ -23,10 +23,13 @@ RULE = ("case = a generated state-building history (3-9 segments of related ops 
         "router; ~60 % of the cases, the handler model must predict every success/failure and the dumped registry), "
         "oracle feeder delegations, prevotes, "
         "votes, tallies (rates, miss counters), reward allocations) -> ExportAppStateAndValidators -> fresh app InitChain "
-        "-> second export; values are drawn with a per-case hub so that many-to-one relations occur in every collection whose "
+        "-> second export, ITERATED for 1-3 generations (export -> import -> 0-5 blocks, optionally a 31-min / day-long one -> export -> import ...; "
+        "each import with no initial height / 1 (InitChain context height 0), the exported height or a later one; one full "
+        "round-trip observation per generation, so every section is compared after every generation and a section silently "
+        "dropped by a swallowed InitGenesis error is a violation); values are drawn with a per-case hub so that many-to-one relations occur in every collection whose "
         "values can coincide (several validators -> one feeder, denoms -> one admin/creator, contracts -> one deployer/"
         "withdrawer/bytecode, equal rates / storage words / rewards); an import that panics or is rejected by genesis validation "
-        "is a violation with the history as replay; 9 fixed openers first; non-trivial = the exported state populates at least 3 of the feature "
+        "is a violation with the history as replay; 12 fixed openers first; non-trivial = the exported state populates at least 3 of the feature "
         "groups {contract storage, funtokens, tf denoms, oracle pending votes/prevotes/rewards, oracle rates/miss, "
         "fee shares, inflation/epochs advanced, sudoers edited}; distinct = distinct input")
 ASSUMPTIONS = [
@@ -72,6 +75,11 @@ def epoch(idk, info):
 
 def vote(v, body):
     return "{| v_voter := %d; v_body := %d |}" % (v, body)
+
+
+def dg_coq(d):
+    return "{| dg_params := %d; dg_shares := %s; dg_idx_dep := %s; dg_idx_wd := %s |}" % (
+        d["params"], L("(%d, %s)" % (c, fshare(c, dep, wd)) for c, dep, wd, _ in d["shares"]), pl(d["idx_dep"]), pl(d["idx_wd"]))
 
 
 def st_coq(s, md):
@@ -197,10 +205,12 @@ def to_coq_case(rec):
     kv = lambda l: L("(%d, %d, %d, %d)" % tuple(e) for e in l)
     return ("{| k_import_ok := %s; k_h := %s; k_t := %s; k_F := %s; k_env1 := %s; k_env2 := %s; "
             "k_s1 := %s; k_e1 := %s; k_s2 := %s; k_e2 := %s; k_jeq := %s; k_kv1 := %s; k_kv2 := %s; "
-            "k_q1 := %s; k_q2 := %s; k_probe := %s; k_dg_p0 := %d; k_dg_hist := %s |}") % (
+            "k_q1 := %s; k_q2 := %s; k_probe := %s; k_dg0 := %s; k_dg_hist := %s |}") % (
         "true" if o["import_ok"] else "false", Z(o["h"]), Z(o["t"]), funs_coq(o), env_coq(o["env1"]), env_coq(o["env2"]),
         st_coq(o["s1"], o["md1"]), gen_coq(o["e1"]), st_coq(o["s2"], o["md2"]), gen_coq(o["e2"]), jeq, kv(o["kv1"]), kv(o["kv2"]),
-        nl(o["q1"]), nl(o["q2"]), pr, o.get("dg", {}).get("params0", 0), dg_hist_coq(o.get("dg", {})))
+        nl(o["q1"]), nl(o["q2"]), pr,
+        dg_coq(o["s1"]["devgas"]) if o.get("dg", {}).get("gen", 0) > 0 else "(dg_genesis %d)" % o.get("dg", {}).get("params0", 0),
+        dg_hist_coq(o.get("dg", {})))
 
 
 def features(rec):
@@ -271,6 +281,13 @@ def classify(rec):
             ks.append("shared:" + name)
     if len(st["oracle"]["pairs"]) != len(st["oracle"]["whitelist"]) or set(st["oracle"]["pairs"]) != set(st["oracle"]["whitelist"]):
         ks.append("state:whitelist-edit-pending")
+    gen = rec.get("gen", 0)
+    ks.append("generation:%d" % (gen + 1))
+    ks.append("import-initial-height:" + ["none(ctx 0)", "1(ctx 0)", "exported", "exported+1000"][rec.get("ih", 2)])
+    if any(info[4] and info[5] == 0 for _, info in g["epochs"]):
+        ks.append("state:started-epoch-at-height-0")
+    if gen > 0:
+        ks.append("state:exported-from-a-chain-started-from-an-export")
     toggles = [op["a"] % 2 for op in rec["input"]["ops"] if op["k"] == "infl_toggle"]
     if g["infl"]["skipped"] > 0:
         ks.append("state:skipped-epochs-inflation-" + ("on" if toggles and toggles[-1] == 1 else "off"))
@@ -292,6 +309,13 @@ def diffs(rec):
     e2 = [[k, i[:5]] for k, i in o["e2"]["epochs"]]
     if e1 != e2 or any(i[5] != o["h"] for _, i in o["e2"]["epochs"]):
         out.append("export:epochs")
+    for m, k in (("sudo", "sudo"), ("epochs", "epochs"), ("tokenfactory", "tf"), ("devgas", "devgas"), ("evm", "evm")):
+        # an import that silently DROPS a module's state (swallowed InitGenesis error): the section comes back empty
+        sec1, sec2 = o["e1"][k], o["e2"][k]
+        n1 = len(sec1) if isinstance(sec1, list) else sum(len(v) for v in sec1.values() if isinstance(v, list))
+        n2 = len(sec2) if isinstance(sec2, list) else sum(len(v) for v in sec2.values() if isinstance(v, list))
+        if n1 > 0 and n2 == 0:
+            out.append("section-dropped:" + m)
     s1, s2 = o["s1"], o["s2"]
     for mod in ("sudo", "tf", "devgas"):
         if s1[mod] != s2[mod]:
@@ -326,7 +350,7 @@ def diffs(rec):
 
 def describe(rec):
     o = rec["obs"]
-    return {"input": rec["input"], "import_ok": o["import_ok"], "height": o["h"], "features": sorted(features(rec)),
+    return {"input": rec["input"], "generation": rec.get("gen", 0) + 1, "import_ok": o["import_ok"], "height": o["h"], "features": sorted(features(rec)),
             "not_reproduced": diffs(rec), "export1": o["e1"], "export2_epochs": o["e2"]["epochs"],
             "rejected_ops": rec.get("failed_ops", 0)}
 
@@ -336,12 +360,20 @@ def signature(rec):
 
 
 def input_size(inp):
-    return len(inp["ops"])
+    return len(inp["ops"]) + 2 * len(inp.get("gens", [])) + sum(g.get("blocks", 0) for g in inp.get("gens", []))
 
 
 def shrink_candidates(inp):
     ops = inp["ops"]
     out = []
+    gens = inp.get("gens", [])
+    for i in range(len(gens)):
+        if len(gens) > 1:
+            out.append(dict(inp, gens=gens[:i] + gens[i + 1:]))
+        if gens[i].get("blocks", 0) > 0:
+            out.append(dict(inp, gens=gens[:i] + [dict(gens[i], blocks=gens[i]["blocks"] - 1)] + gens[i + 1:]))
+        if gens[i].get("long", 0) > 0:
+            out.append(dict(inp, gens=gens[:i] + [dict(gens[i], long=0)] + gens[i + 1:]))
     n = len(ops)
     if n > 3:
         out.append(dict(inp, ops=ops[: n // 2]))
@@ -386,10 +418,16 @@ MANIFEST = {
                  "validation (FeeShare.Validate / Params.Validate are part of init_devgas) and InitGenesis restores the registry "
                  "exactly; refutations for the two pre-fix genesis formulas (stale RewardsID, token-factory bank metadata "
                  "reset) and for the variant rule 'MsgUpdateFeeShare removes a withdrawer equal to the deployer' "
-                 "(C20_devgas_update_removes_withdrawer_refuted). Tie to /repo on every run: "
+                 "(C20_devgas_update_removes_withdrawer_refuted); ITERATED round trips: C20_iterated_roundtrip (any number of "
+                 "generations, each imported at its own height >= 0 incl. 0: every export accepted, every imported state "
+                 "well-formed again, n-th export = first export with epoch heights re-based), epochs init includes "
+                 "GenesisState/EpochInfo.Validate and the module's swallowed error, C20_epochs_export_init_idempotent, and "
+                 "C20_epochs_height_zero_invalid_refuted for the validator 'a counting epoch needs a positive start height'. "
+                 "Tie to /repo on every run: "
                  "(a) generated facts — every collections.New* call of the seven keepers, the GenesisState fields, which of them "
                  "InitGenesis reads / ExportGenesis fills, and the formulas the model is parameterised by (RewardsID, tf bank metadata, "
-                 "asset.Pair JSON codec, the shape of every write to FeeShare.WithdrawerAddress in x/devgas) — with the "
+                 "asset.Pair JSON codec, the shape of every write to FeeShare.WithdrawerAddress in x/devgas, the set of rejecting "
+                 "conditions of EpochInfo.Validate, whether x/epochs discards the InitGenesis error) — with the "
                  "obligation that every persistent collection is carried by a used genesis field, derived, or on the exception "
                  "list; (b) correspondence — generated state-building histories on the real app (contracts, self-destructs, "
                  "FunTokens both ways, tf denoms/hand-over/metadata, sudoers, inflation, epochs, x/devgas registry message histories "
